@@ -1,1 +1,1129 @@
-(** Proofs for C20 (placeholder, replaced by the real development). *)
+(** Proofs for C20: the on-disk hash set (model/HashSet.v) refines the
+    abstract set of model/HashSetSpec.v.  Axiom-free. *)
+From W.lib Require Import Tree GoSort.
+From W.model Require Import HashSet HashSetSpec.
+From Coq Require Import Arith Lia ZifyNat ZifyN ZifyBool List NArith Bool.
+From Coq Require Import Sorting.Sorted Sorting.Permutation.
+Import ListNotations.
+Local Open Scope N_scope.
+
+(** [hash] is a transparent alias of [N]; make the two spellings agree before [lia]. *)
+Ltac hlia := unfold hash in *; lia.
+
+(* ------------------------------------------------------------------ *)
+(** * 1. sort.Search *)
+
+Lemma half_bounds : forall i j : nat, (i < j)%nat -> (i <= (i + j) / 2)%nat /\ ((i + j) / 2 < j)%nat.
+Proof.
+  intros i j Hij.
+  pose proof (Nat.div_mod (i + j) 2 ltac:(lia)) as E.
+  pose proof (Nat.mod_upper_bound (i + j) 2 ltac:(lia)) as B.
+  lia.
+Qed.
+
+Section Search.
+  Variable n : nat.
+  Variable f : nat -> bool.
+  Hypothesis mono : forall x y, (x <= y)%nat -> (y < n)%nat -> f x = true -> f y = true.
+
+  Lemma search_loop_spec : forall fuel i j,
+    (i <= j)%nat -> (j <= n)%nat -> (j - i < fuel)%nat ->
+    (forall x, (x < i)%nat -> f x = false) ->
+    (forall x, (j <= x)%nat -> (x < n)%nat -> f x = true) ->
+    (i <= search_loop fuel f i j)%nat /\ (search_loop fuel f i j <= j)%nat /\
+    (forall x, (x < search_loop fuel f i j)%nat -> f x = false) /\
+    (forall x, (search_loop fuel f i j <= x)%nat -> (x < n)%nat -> f x = true).
+  Proof.
+    induction fuel as [|fuel IH]; intros i j Hij Hjn Hfuel Hlo Hhi.
+    - lia.
+    - cbn [search_loop].
+      destruct (i <? j)%nat eqn:Eij.
+      + apply Nat.ltb_lt in Eij.
+        destruct (half_bounds i j Eij) as [Hh1 Hh2].
+        set (h := ((i + j) / 2)%nat) in *.
+        destruct (f h) eqn:Efh.
+        * assert (Hhi' : forall x, (h <= x)%nat -> (x < n)%nat -> f x = true).
+          { intros x Hx1 Hx2. apply (mono h x Hx1 Hx2 Efh). }
+          destruct (IH i h Hh1 ltac:(lia) ltac:(lia) Hlo Hhi') as (A1 & A2 & A3 & A4).
+          repeat split; try assumption; lia.
+        * assert (Hlo' : forall x, (x < S h)%nat -> f x = false).
+          { intros x Hx. destruct (f x) eqn:Efx; [|reflexivity].
+            assert (Hc : f h = true) by (apply (mono x h); [lia|lia|exact Efx]).
+            congruence. }
+          destruct (IH (S h) j ltac:(lia) Hjn ltac:(lia) Hlo' Hhi) as (A1 & A2 & A3 & A4).
+          repeat split; try assumption; lia.
+      + apply Nat.ltb_ge in Eij.
+        assert (Eij' : i = j) by lia. subst j.
+        repeat split; try assumption; lia.
+  Qed.
+
+  Lemma search_spec :
+    (search n f <= n)%nat /\
+    (forall x, (x < search n f)%nat -> f x = false) /\
+    (forall x, (search n f <= x)%nat -> (x < n)%nat -> f x = true).
+  Proof.
+    unfold search.
+    destruct (search_loop_spec (S n) 0%nat n ltac:(lia) ltac:(lia) ltac:(lia)) as (A1 & A2 & A3 & A4).
+    - intros x Hx. lia.
+    - intros x Hx1 Hx2. lia.
+    - repeat split; assumption.
+  Qed.
+End Search.
+
+(* ------------------------------------------------------------------ *)
+(** * 2. list helpers *)
+
+Lemma nth_firstn_lt : forall (A : Type) (d : A) (l : list A) (n i : nat),
+  (i < n)%nat -> nth i (firstn n l) d = nth i l d.
+Proof.
+  intros A d l. induction l as [|a l IH]; intros n i Hi.
+  - rewrite firstn_nil. reflexivity.
+  - destruct n as [|n]; [lia|]. destruct i as [|i]; cbn; [reflexivity|].
+    apply IH. lia.
+Qed.
+
+Lemma nth_skipn_add : forall (A : Type) (d : A) (l : list A) (n i : nat),
+  nth i (skipn n l) d = nth (n + i) l d.
+Proof.
+  intros A d l. induction l as [|a l IH]; intros n i.
+  - rewrite skipn_nil. destruct i; destruct n; reflexivity.
+  - destruct n as [|n]; cbn; [reflexivity|]. apply IH.
+Qed.
+
+Lemma In_firstn_nth : forall (A : Type) (d : A) (l : list A) (n : nat) (x : A),
+  In x (firstn n l) -> exists i, (i < n)%nat /\ (i < length l)%nat /\ x = nth i l d.
+Proof.
+  intros A d l n x Hin.
+  destruct (In_nth _ _ d Hin) as (i & Hi & Hx).
+  rewrite firstn_length in Hi.
+  exists i. repeat split; try lia.
+  rewrite nth_firstn_lt in Hx by lia. congruence.
+Qed.
+
+Lemma In_skipn_nth : forall (A : Type) (d : A) (l : list A) (n : nat) (x : A),
+  In x (skipn n l) -> exists i, (n <= i)%nat /\ (i < length l)%nat /\ x = nth i l d.
+Proof.
+  intros A d l n x Hin.
+  destruct (In_nth _ _ d Hin) as (i & Hi & Hx).
+  rewrite skipn_length in Hi.
+  exists (n + i)%nat. repeat split; try lia.
+  rewrite nth_skipn_add in Hx. congruence.
+Qed.
+
+Lemma skipn_skipn' : forall (A : Type) (x y : nat) (l : list A),
+  skipn x (skipn y l) = skipn (y + x) l.
+Proof.
+  intros A x y. induction y as [|y IH]; intros l.
+  - reflexivity.
+  - destruct l as [|a l]; cbn.
+    + apply skipn_nil.
+    + apply IH.
+Qed.
+
+Lemma filter_length_le' : forall (A : Type) (p : A -> bool) (l : list A),
+  (length (filter p l) <= length l)%nat.
+Proof.
+  intros A p l. induction l as [|a l IH]; cbn; [lia|].
+  destruct (p a); cbn; lia.
+Qed.
+
+Lemma filter_length_mono : forall (A : Type) (p q : A -> bool) (l : list A),
+  (forall x, p x = true -> q x = true) ->
+  (length (filter p l) <= length (filter q l))%nat.
+Proof.
+  intros A p q l Hpq. induction l as [|a l IH]; cbn; [lia|].
+  destruct (p a) eqn:Ep.
+  - rewrite (Hpq a Ep). cbn. lia.
+  - destruct (q a); cbn; lia.
+Qed.
+
+Lemma filter_length_perm : forall (A : Type) (p : A -> bool) (l l' : list A),
+  Permutation l l' -> length (filter p l) = length (filter p l').
+Proof.
+  intros A p l l' HP. induction HP as [|x l l' HP IH|x y l|l l' l'' HP1 IH1 HP2 IH2]; cbn.
+  - reflexivity.
+  - destruct (p x); cbn; lia.
+  - destruct (p x); destruct (p y); cbn; lia.
+  - lia.
+Qed.
+
+Lemma nth_map_seq : forall (f : nat -> nat) (n a k d : nat),
+  (k < n)%nat -> nth k (map f (seq a n)) d = f (a + k)%nat.
+Proof.
+  intros f n a k d Hk.
+  rewrite (nth_indep _ d (f 0%nat)) by (rewrite map_length, seq_length; lia).
+  rewrite map_nth. rewrite seq_nth by lia. reflexivity.
+Qed.
+
+(* ------------------------------------------------------------------ *)
+(** * 3. sortedness *)
+
+Notation SS := (StronglySorted N.le).
+
+Lemma Sorted_SS : forall l, Sorted N.le l -> SS l.
+Proof.
+  intros l H. apply Sorted_StronglySorted; [|exact H].
+  intros x y z Hxy Hyz. exact (N.le_trans _ _ _ Hxy Hyz).
+Qed.
+
+Lemma SS_Sorted : forall l, SS l -> Sorted N.le l.
+Proof. intros l H. apply StronglySorted_Sorted. exact H. Qed.
+
+Lemma SS_app_iff : forall l1 l2,
+  SS (l1 ++ l2) <-> SS l1 /\ SS l2 /\ (forall x y, In x l1 -> In y l2 -> x <= y).
+Proof.
+  induction l1 as [|a l1 IH]; intros l2; cbn.
+  - split.
+    + intros H. repeat split; [constructor|exact H|intros x y []].
+    + intros (_ & H & _). exact H.
+  - split.
+    + intros H. inversion H as [|a' l' Hss Hall]; subst.
+      apply IH in Hss. destruct Hss as (S1 & S2 & S3).
+      rewrite Forall_app in Hall. destruct Hall as [Ha1 Ha2].
+      repeat split.
+      * constructor; assumption.
+      * assumption.
+      * intros x y [Hx|Hx] Hy.
+        -- subst x. rewrite Forall_forall in Ha2. apply Ha2. exact Hy.
+        -- apply S3; assumption.
+    + intros (S1 & S2 & S3). inversion S1 as [|a' l' Hss Hall]; subst.
+      constructor.
+      * apply IH. repeat split; try assumption.
+        intros x y Hx Hy. apply S3; [right|]; assumption.
+      * rewrite Forall_app. split; [assumption|].
+        rewrite Forall_forall. intros y Hy. apply S3; [left; reflexivity|exact Hy].
+Qed.
+
+Lemma SS_firstn : forall n l, SS l -> SS (firstn n l).
+Proof.
+  intros n l H. rewrite <- (firstn_skipn n l) in H. apply SS_app_iff in H. tauto.
+Qed.
+
+Lemma SS_skipn : forall n l, SS l -> SS (skipn n l).
+Proof.
+  intros n l H. rewrite <- (firstn_skipn n l) in H. apply SS_app_iff in H. tauto.
+Qed.
+
+Lemma SS_nth : forall l, SS l -> forall i j,
+  (i <= j)%nat -> (j < length l)%nat -> nth i l 0 <= nth j l 0.
+Proof.
+  intros l H. induction H as [|a l Hss IH Hall]; intros i j Hij Hj.
+  - cbn in Hj. lia.
+  - cbn in Hj. destruct i as [|i]; destruct j as [|j]; cbn.
+    + apply N.le_refl.
+    + rewrite Forall_forall in Hall. apply Hall. apply nth_In. lia.
+    + lia.
+    + apply IH; lia.
+Qed.
+
+(** insertion sort on hashes *)
+Lemma ins_hash_perm : forall h l, Permutation (ins_hash h l) (h :: l).
+Proof.
+  intros h l. induction l as [|x l IH]; cbn.
+  - apply Permutation_refl.
+  - destruct (h <=? x).
+    + apply Permutation_refl.
+    + eapply perm_trans; [apply perm_skip; exact IH|apply perm_swap].
+Qed.
+
+Lemma sort_hashes_perm : forall l, Permutation (sort_hashes l) l.
+Proof.
+  induction l as [|a l IH]; cbn.
+  - constructor.
+  - eapply perm_trans; [apply ins_hash_perm|]. apply perm_skip. exact IH.
+Qed.
+
+Lemma ins_hash_SS : forall h l, SS l -> SS (ins_hash h l).
+Proof.
+  intros h l H. induction H as [|x l Hss IH Hall]; cbn.
+  - constructor; constructor.
+  - destruct (h <=? x) eqn:E.
+    + apply N.leb_le in E. constructor.
+      * constructor; assumption.
+      * constructor; [exact E|].
+        rewrite Forall_forall in *. intros y Hy. eapply N.le_trans; [exact E|apply Hall; exact Hy].
+    + apply N.leb_gt in E. constructor; [exact IH|].
+      rewrite Forall_forall in *. intros y Hy.
+      apply (Permutation_in _ (ins_hash_perm h l)) in Hy.
+      destruct Hy as [Hy|Hy]; [subst y; lia|apply Hall; exact Hy].
+Qed.
+
+Lemma sort_hashes_SS : forall l, SS (sort_hashes l).
+Proof.
+  induction l as [|a l IH]; cbn; [constructor|apply ins_hash_SS; exact IH].
+Qed.
+
+Lemma SS_perm_unique : forall l1 l2, SS l1 -> SS l2 -> Permutation l1 l2 -> l1 = l2.
+Proof.
+  induction l1 as [|a l1 IH]; intros l2 S1 S2 HP.
+  - apply Permutation_nil in HP. congruence.
+  - destruct l2 as [|b l2].
+    + apply Permutation_sym, Permutation_nil in HP. discriminate.
+    + inversion S1 as [|a' l1' S1' A1]; subst. inversion S2 as [|b' l2' S2' A2]; subst.
+      rewrite Forall_forall in A1, A2.
+      assert (Hab : a = b).
+      { assert (Hb : In b (a :: l1)) by (apply (Permutation_in _ (Permutation_sym HP)); left; reflexivity).
+        assert (Ha : In a (b :: l2)) by (apply (Permutation_in _ HP); left; reflexivity).
+        destruct Hb as [Hb|Hb]; [congruence|]. destruct Ha as [Ha|Ha]; [congruence|].
+        apply A1 in Hb. apply A2 in Ha. lia. }
+      subst b. f_equal. apply IH; try assumption.
+      eapply Permutation_cons_inv. exact HP.
+Qed.
+
+(** a sorted list splits along any downward-closed predicate *)
+Definition downclosed (p : hash -> bool) : Prop :=
+  forall x y, x <= y -> p y = true -> p x = true.
+
+Lemma filter_all_false : forall (p : hash -> bool) l,
+  (forall y, In y l -> p y = false) ->
+  filter p l = [] /\ filter (fun x => negb (p x)) l = l.
+Proof.
+  intros p l. induction l as [|a l IH]; intros H; cbn.
+  - split; reflexivity.
+  - rewrite (H a) by (left; reflexivity). cbn.
+    destruct IH as [I1 I2]; [intros y Hy; apply H; right; exact Hy|].
+    split; [exact I1|f_equal; exact I2].
+Qed.
+
+Lemma SS_filter_split : forall p l, SS l -> downclosed p ->
+  l = filter p l ++ filter (fun x => negb (p x)) l.
+Proof.
+  intros p l H Hp. induction H as [|a l Hss IH Hall]; cbn.
+  - reflexivity.
+  - destruct (p a) eqn:Ea; cbn.
+    + f_equal. exact IH.
+    + destruct (filter_all_false p l) as [I1 I2].
+      { intros y Hy. rewrite Forall_forall in Hall. destruct (p y) eqn:Ey; [|reflexivity].
+        rewrite (Hp a y (Hall y Hy) Ey) in Ea. discriminate. }
+      rewrite I1, I2. reflexivity.
+Qed.
+
+Lemma SS_filter_nth : forall p l, SS l -> downclosed p ->
+  (length (filter p l) <= length l)%nat /\
+  (forall i, (i < length (filter p l))%nat -> p (nth i l 0) = true) /\
+  (forall i, (length (filter p l) <= i)%nat -> (i < length l)%nat -> p (nth i l 0) = false).
+Proof.
+  intros p l H Hp.
+  pose proof (SS_filter_split p l H Hp) as E.
+  assert (H1 : forall x, In x (filter p l) -> p x = true).
+  { intros x Hx. apply filter_In in Hx. tauto. }
+  assert (H2 : forall x, In x (filter (fun x => negb (p x)) l) -> p x = false).
+  { intros x Hx. apply filter_In in Hx. destruct Hx as [_ Hx]. destruct (p x); [discriminate|reflexivity]. }
+  remember (filter p l) as L1 eqn:EL1. remember (filter (fun x => negb (p x)) l) as L2 eqn:EL2.
+  clear EL1 EL2. subst l. rewrite app_length.
+  split; [lia|]. split.
+  - intros i Hi. rewrite app_nth1 by exact Hi. apply H1. apply nth_In. exact Hi.
+  - intros i Hi1 Hi2. rewrite app_nth2 by lia. apply H2. apply nth_In. lia.
+Qed.
+
+(* ------------------------------------------------------------------ *)
+(** * 4. first byte, fan-out table *)
+
+Lemma pow120_nz : 2 ^ 120 <> 0.
+Proof. apply N.pow_nonzero. discriminate. Qed.
+
+Lemma fb_mono : forall h1 h2, h1 <= h2 -> (fb h1 <= fb h2)%nat.
+Proof.
+  intros h1 h2 H. unfold fb.
+  pose proof (N.div_le_mono h1 h2 (2 ^ 120) pow120_nz H) as D. lia.
+Qed.
+
+Lemma fb_lt : forall h1 h2, (fb h1 < fb h2)%nat -> h1 < h2.
+Proof.
+  intros h1 h2 H. destruct (N.lt_ge_cases h1 h2) as [L|G]; [exact L|].
+  apply fb_mono in G. lia.
+Qed.
+
+Lemma pow128_split : 2 ^ 128 = 2 ^ 120 * 256.
+Proof. reflexivity. Qed.
+
+Lemma fb_wf : forall h, wf_hash h -> (fb h < 256)%nat.
+Proof.
+  intros h H. unfold wf_hash in H. unfold fb.
+  rewrite pow128_split in H.
+  pose proof (N.div_lt_upper_bound h (2 ^ 120) 256 pow120_nz H) as D. lia.
+Qed.
+
+Definition cnt (l : list hash) (k : nat) : nat :=
+  length (filter (fun h => (fb h <=? k)%nat) l).
+
+Lemma spec_fanout_nth : forall l k, (k < 256)%nat -> nth k (spec_fanout l) 0%nat = cnt l k.
+Proof.
+  intros l k Hk. unfold spec_fanout. rewrite nth_map_seq by exact Hk. reflexivity.
+Qed.
+
+Lemma spec_fanout_perm : forall l l', Permutation l l' -> spec_fanout l = spec_fanout l'.
+Proof.
+  intros l l' HP. unfold spec_fanout. apply map_ext. intros k.
+  apply filter_length_perm. exact HP.
+Qed.
+
+Lemma downclosed_fb_le : forall k, downclosed (fun h => (fb h <=? k)%nat).
+Proof.
+  intros k x y Hxy Hy. apply Nat.leb_le in Hy. apply Nat.leb_le.
+  pose proof (fb_mono x y Hxy). lia.
+Qed.
+
+Lemma downclosed_fb_lt : forall k, downclosed (fun h => (fb h <? k)%nat).
+Proof.
+  intros k x y Hxy Hy. apply Nat.ltb_lt in Hy. apply Nat.ltb_lt.
+  pose proof (fb_mono x y Hxy). lia.
+Qed.
+
+(* ------------------------------------------------------------------ *)
+(** * 5. insertIndex / indexOf *)
+
+Definition is_pos (A : list hash) (b : hash) (o : nat) : Prop :=
+  (o <= length A)%nat /\
+  (forall i, (i < o)%nat -> nth i A 0 < b) /\
+  (forall i, (o <= i)%nat -> (i < length A)%nat -> b <= nth i A 0).
+
+Lemma start_ind_eq : forall tbl k, (k < 256)%nat ->
+  (if Nat.eqb k 0 then 0%nat else nth (k - 1) (spec_fanout tbl) 0%nat)
+  = length (filter (fun h => (fb h <? k)%nat) tbl).
+Proof.
+  intros tbl k Hk. destruct (Nat.eqb k 0) eqn:E.
+  - apply Nat.eqb_eq in E. subst k.
+    induction tbl as [|a tbl IH]; cbn [filter length]; [reflexivity|].
+    replace (fb a <? 0)%nat with false by (symmetry; apply Nat.ltb_ge; lia). exact IH.
+  - apply Nat.eqb_neq in E. rewrite spec_fanout_nth by lia. unfold cnt.
+    f_equal. apply filter_ext. intros h.
+    destruct (fb h <=? k - 1)%nat eqn:E1; destruct (fb h <? k)%nat eqn:E2; try reflexivity.
+    + apply Nat.leb_le in E1. apply Nat.ltb_ge in E2. lia.
+    + apply Nat.leb_gt in E1. apply Nat.ltb_lt in E2. lia.
+Qed.
+
+Lemma insert_index_spec : forall (tbl : list hash) b, SS tbl -> wf_hash b ->
+  exists o, insert_index (spec_fanout tbl) tbl b = Some o /\ is_pos tbl b o.
+Proof.
+  intros tbl b Hss Hwf.
+  pose proof (fb_wf b Hwf) as Hk.
+  unfold insert_index. cbv zeta.
+  rewrite (start_ind_eq tbl (fb b) Hk).
+  rewrite (spec_fanout_nth tbl (fb b) Hk). unfold cnt.
+  destruct (SS_filter_nth _ tbl Hss (downclosed_fb_lt (fb b))) as (S1 & S2 & S3).
+  destruct (SS_filter_nth _ tbl Hss (downclosed_fb_le (fb b))) as (E1 & E2 & E3).
+  assert (Hse : (length (filter (fun h => (fb h <? fb b)%nat) tbl)
+                 <= length (filter (fun h => (fb h <=? fb b)%nat) tbl))%nat).
+  { apply filter_length_mono. intros x Hx. apply Nat.ltb_lt in Hx. apply Nat.leb_le. hlia. }
+  set (s := length (filter (fun h => (fb h <? fb b)%nat) tbl)) in *.
+  set (e := length (filter (fun h => (fb h <=? fb b)%nat) tbl)) in *.
+  assert (Hlow : forall i, (i < s)%nat -> nth i tbl 0 < b).
+  { intros i Hi. apply fb_lt. apply S2 in Hi. apply Nat.ltb_lt in Hi. exact Hi. }
+  assert (Hhigh : forall i, (e <= i)%nat -> (i < length tbl)%nat -> b <= nth i tbl 0).
+  { intros i Hi1 Hi2. apply N.lt_le_incl. apply fb_lt.
+    pose proof (E3 i Hi1 Hi2) as F. apply Nat.leb_gt in F. exact F. }
+  clearbody s e.
+  destruct (Nat.eqb s e) eqn:Ese.
+  - apply Nat.eqb_eq in Ese. exists s. split; [reflexivity|].
+    split; [exact S1|]. split; [exact Hlow|].
+    intros i Hi1 Hi2. apply Hhigh; [hlia|exact Hi2].
+  - apply Nat.eqb_neq in Ese.
+    replace (length tbl <? e)%nat with false by (symmetry; apply Nat.ltb_ge; exact E1).
+    set (f := fun pos : nat => b <=? nth (s + pos) tbl 0).
+    assert (Hmono : forall x y, (x <= y)%nat -> (y < e - s)%nat -> f x = true -> f y = true).
+    { intros x y Hxy Hy Hfx. unfold f in *. apply N.leb_le in Hfx. apply N.leb_le.
+      eapply N.le_trans; [exact Hfx|]. apply SS_nth; [exact Hss|hlia|hlia]. }
+    destruct (search_spec (e - s) f Hmono) as (P1 & P2 & P3).
+    set (p := search (e - s) f) in *.
+    exists (s + p)%nat. split; [reflexivity|].
+    split; [hlia|]. split.
+    + intros i Hi. destruct (Nat.lt_ge_cases i s) as [L|G]; [apply Hlow; exact L|].
+      assert (Hf : f (i - s)%nat = false) by (apply P2; hlia).
+      unfold f in Hf. replace (s + (i - s))%nat with i in Hf by hlia.
+      apply N.leb_gt in Hf. exact Hf.
+    + intros i Hi1 Hi2. destruct (Nat.lt_ge_cases i e) as [L|G]; [|apply Hhigh; assumption].
+      assert (Hf : f (i - s)%nat = true) by (apply P3; hlia).
+      unfold f in Hf. replace (s + (i - s))%nat with i in Hf by hlia.
+      apply N.leb_le in Hf. exact Hf.
+Qed.
+
+Lemma mem_In : forall h l, mem h l = true <-> In h l.
+Proof.
+  intros h l. unfold mem. rewrite existsb_exists. split.
+  - intros (x & Hx & E). apply N.eqb_eq in E. subst x. exact Hx.
+  - intros H. exists h. split; [exact H|apply N.eqb_refl].
+Qed.
+
+Lemma mem_perm : forall h l l', Permutation l l' -> mem h l = mem h l'.
+Proof.
+  intros h l l' HP. destruct (mem h l) eqn:E1; destruct (mem h l') eqn:E2; try reflexivity.
+  - apply mem_In in E1. apply (Permutation_in _ HP) in E1. apply mem_In in E1. congruence.
+  - apply mem_In in E2. apply (Permutation_in _ (Permutation_sym HP)) in E2. apply mem_In in E2. congruence.
+Qed.
+
+Lemma index_of_spec : forall (tbl : list hash) b, SS tbl -> wf_hash b ->
+  exists r, index_of (spec_fanout tbl) tbl b = Some r /\
+            (match r with Some _ => true | None => false end) = mem b tbl.
+Proof.
+  intros tbl b Hss Hwf.
+  destruct (insert_index_spec tbl b Hss Hwf) as (o & Ho & Hle & Hlow & Hhigh).
+  unfold index_of. rewrite Ho.
+  destruct (nth_error tbl o) as [h|] eqn:En.
+  - assert (Hol : (o < length tbl)%nat) by (apply nth_error_Some; congruence).
+    assert (Hh : nth o tbl 0 = h) by (apply nth_error_nth; exact En).
+    destruct (h =? b) eqn:Eh.
+    + apply N.eqb_eq in Eh. exists (Some o). split; [reflexivity|].
+      symmetry. apply mem_In. rewrite <- Eh, <- Hh. apply nth_In. exact Hol.
+    + apply N.eqb_neq in Eh. exists None. split; [reflexivity|].
+      symmetry. destruct (mem b tbl) eqn:Em; [|reflexivity]. exfalso.
+      apply mem_In in Em. destruct (In_nth _ _ 0 Em) as (i & Hi & Hb).
+      destruct (Nat.lt_ge_cases i o) as [L|G].
+      * apply Hlow in L. hlia.
+      * pose proof (SS_nth tbl Hss o i G Hi) as Q.
+        pose proof (Hhigh o (Nat.le_refl o) Hol) as Q'. hlia.
+  - apply nth_error_None in En. exists None. split; [reflexivity|].
+    symmetry. destruct (mem b tbl) eqn:Em; [|reflexivity]. exfalso.
+    apply mem_In in Em. destruct (In_nth _ _ 0 Em) as (i & Hi & Hb).
+    assert (L : (i < o)%nat) by hlia. apply Hlow in L. hlia.
+Qed.
+
+(* ------------------------------------------------------------------ *)
+(** * 6. file writes: upd, shift_loop, write_group *)
+
+Lemma upd_app : forall (P : list hash) i h t, upd (length P + i) h (P ++ t) = P ++ upd i h t.
+Proof.
+  induction P as [|a P IH]; intros i h t; cbn.
+  - reflexivity.
+  - f_equal. apply IH.
+Qed.
+
+Lemma skipn_upd : forall i h t, skipn i (upd i h t) = h :: skipn (S i) t.
+Proof.
+  induction i as [|i IH]; intros h t; destruct t as [|x t]; cbn [upd skipn].
+  - reflexivity.
+  - reflexivity.
+  - rewrite IH. rewrite skipn_nil. reflexivity.
+  - rewrite IH. reflexivity.
+Qed.
+
+Lemma upd_decomp : forall i h t, exists Q, length Q = i /\ upd i h t = Q ++ h :: skipn (S i) t.
+Proof.
+  induction i as [|i IH]; intros h t; destruct t as [|x t]; cbn [upd].
+  - exists []. split; reflexivity.
+  - exists []. split; reflexivity.
+  - destruct (IH h []) as (Q & HQ & E). exists (0 :: Q). split; [cbn; lia|].
+    rewrite E. rewrite !skipn_nil. reflexivity.
+  - destruct (IH h t) as (Q & HQ & E). exists (x :: Q). split; [cbn; lia|].
+    rewrite E. reflexivity.
+Qed.
+
+Lemma skipn_upd_self : forall delta x R, skipn delta (upd delta x (x :: R)) = x :: skipn delta R.
+Proof.
+  intros delta x R. destruct delta as [|d].
+  - reflexivity.
+  - cbn [upd]. cbn [skipn]. apply skipn_upd.
+Qed.
+
+Lemma list_last_split : forall (M : list hash) k, length M = S k ->
+  exists M' x, M = M' ++ [x] /\ length M' = k.
+Proof.
+  intros M k HM. destruct (exists_last (l := M)) as (M' & x & E).
+  - intros E. subst M. discriminate.
+  - exists M', x. split; [exact E|]. subst M. rewrite app_length in HM. cbn in HM. lia.
+Qed.
+
+Lemma shift_loop_spec : forall k off delta (P M R : list hash),
+  length P = off -> length M = k ->
+  exists X, shift_loop k off delta (P ++ M ++ R) = Some (P ++ X) /\
+            skipn delta X = M ++ skipn delta R.
+Proof.
+  induction k as [|k IH]; intros off delta P M R HP HM.
+  - destruct M; [|discriminate]. exists R. split; reflexivity.
+  - destruct (list_last_split M k HM) as (M' & x & EM & HM'). subst M.
+    cbn [shift_loop].
+    assert (En : nth_error (P ++ (M' ++ [x]) ++ R) (off + k) = Some x).
+    { rewrite nth_error_app2 by lia. rewrite <- app_assoc.
+      rewrite nth_error_app2 by lia.
+      replace (off + k - length P - length M')%nat with 0%nat by lia. reflexivity. }
+    rewrite En.
+    assert (Eu : upd (delta + (off + k)) x (P ++ (M' ++ [x]) ++ R)
+                 = P ++ M' ++ upd delta x (x :: R)).
+    { replace (delta + (off + k))%nat with (length P + (length M' + delta))%nat by lia.
+      rewrite upd_app. rewrite <- app_assoc. rewrite upd_app. reflexivity. }
+    rewrite Eu.
+    destruct (IH off delta P M' (upd delta x (x :: R)) HP HM') as (X & EX & HX).
+    exists X. split; [exact EX|].
+    rewrite HX. rewrite skipn_upd_self. rewrite <- app_assoc. reflexivity.
+Qed.
+
+Lemma write_group_app : forall hs (P : list hash) d t,
+  write_group (length P + d) hs (P ++ t) = P ++ write_group d hs t.
+Proof.
+  induction hs as [|h hs IH]; intros P d t; cbn [write_group].
+  - reflexivity.
+  - rewrite upd_app. rewrite plus_n_Sm. apply IH.
+Qed.
+
+Lemma skipn_write_group : forall hs d t,
+  skipn d (write_group d hs t) = hs ++ skipn (d + length hs) t.
+Proof.
+  induction hs as [|h hs IH]; intros d t; cbn [write_group].
+  - cbn. rewrite Nat.add_0_r. reflexivity.
+  - destruct (upd_decomp d h t) as (Q & HQ & E). rewrite E.
+    replace (Q ++ h :: skipn (S d) t) with ((Q ++ [h]) ++ skipn (S d) t)
+      by (rewrite <- app_assoc; reflexivity).
+    replace (S d) with (length (Q ++ [h]) + 0)%nat at 1
+      by (rewrite app_length; cbn; lia).
+    rewrite write_group_app. rewrite <- app_assoc.
+    replace d with (length Q + 0)%nat at 1 by lia.
+    rewrite skipn_app. rewrite skipn_all2 by lia.
+    replace (length Q + 0 - length Q)%nat with 0%nat by lia.
+    rewrite skipn_O. cbn [app]. f_equal.
+    pose proof (IH 0%nat (skipn (S d) t)) as I. rewrite skipn_O in I. rewrite I.
+    f_equal. rewrite skipn_skipn'. f_equal. cbn [length]. lia.
+Qed.
+
+(* ------------------------------------------------------------------ *)
+(** * 7. apply_groups computes merge_at *)
+
+Fixpoint merge_at (gs : list (nat * list hash)) (A : list hash) : list hash :=
+  match gs with
+  | [] => A
+  | (off, hs0) :: gs' => merge_at gs' (firstn off A) ++ sort_hashes hs0 ++ skipn off A
+  end.
+
+Definition total (gs : list (nat * list hash)) : nat := length (concat (map snd gs)).
+
+Lemma sort_hashes_length : forall l, length (sort_hashes l) = length l.
+Proof. intros l. apply Permutation_length. apply sort_hashes_perm. Qed.
+
+Definition desc (gs : list (nat * list hash)) : Prop :=
+  StronglySorted (fun x y => (fst y < fst x)%nat) gs.
+
+Lemma apply_groups_spec : forall gs e (t : list hash),
+  (e <= length t)%nat -> desc gs -> Forall (fun g => (fst g <= e)%nat) gs ->
+  apply_groups gs e (e + total gs) t
+  = Some (merge_at gs (firstn e t) ++ skipn (e + total gs) t).
+Proof.
+  induction gs as [|[off hs0] gs' IH]; intros e t Hlen Hd Hle.
+  - cbn [apply_groups merge_at]. unfold total. cbn. rewrite Nat.add_0_r, firstn_skipn. reflexivity.
+  - cbn [apply_groups merge_at].
+    inversion Hd as [|g0 gs0 Hd' Hlt]; subst. inversion Hle as [|g1 gs1 Hoff Hle']; subst.
+    cbn [fst] in *.
+    assert (Htot : total ((off, hs0) :: gs') = (length hs0 + total gs')%nat).
+    { unfold total. cbn [map snd concat]. rewrite app_length. reflexivity. }
+    rewrite Htot. rewrite sort_hashes_length.
+    set (D := total gs') in *.
+    set (P := firstn off t). set (M := skipn off (firstn e t)). set (R := skipn e t).
+    assert (HP : length P = off) by (unfold P; apply firstn_length_le; lia).
+    assert (HM : length M = (e - off)%nat).
+    { unfold M. rewrite skipn_length, firstn_length_le by lia. reflexivity. }
+    assert (Ht : t = P ++ M ++ R).
+    { unfold P, M, R. rewrite <- (firstn_skipn e t) at 1.
+      rewrite <- (firstn_skipn off (firstn e t)) at 1.
+      rewrite firstn_firstn. rewrite Nat.min_l by lia. rewrite <- app_assoc. reflexivity. }
+    assert (Hfe : firstn e t = P ++ M).
+    { unfold P, M. rewrite <- (firstn_skipn off (firstn e t)) at 1.
+      rewrite firstn_firstn. rewrite Nat.min_l by lia. reflexivity. }
+    replace (e + (length hs0 + D) - e)%nat with (length hs0 + D)%nat by lia.
+    destruct (shift_loop_spec (e - off) off (length hs0 + D) P M R HP HM) as (X & EX & HX).
+    rewrite Ht at 1. rewrite EX.
+    replace (length hs0 + D + off - length hs0)%nat with (length P + D)%nat by lia.
+    rewrite write_group_app.
+    assert (Hsk : skipn D (write_group D (sort_hashes hs0) X)
+                  = sort_hashes hs0 ++ M ++ skipn (length hs0 + D) R).
+    { rewrite skipn_write_group. rewrite sort_hashes_length.
+      replace (D + length hs0)%nat with (length hs0 + D)%nat by lia. rewrite HX. reflexivity. }
+    set (X' := write_group D (sort_hashes hs0) X) in *.
+    rewrite <- HP at 1. 
+    assert (Hle2 : Forall (fun g => (fst g <= length P)%nat) gs').
+    { rewrite HP. eapply Forall_impl; [|exact Hlt]. intros g Hg. cbn in Hg. lia. }
+    rewrite (IH (length P) (P ++ X') ltac:(rewrite app_length; lia) Hd' Hle2).
+    f_equal.
+    rewrite firstn_app. rewrite Nat.sub_diag. rewrite firstn_all. cbn [firstn]. rewrite app_nil_r.
+    rewrite skipn_app. rewrite skipn_all2 by lia.
+    replace (length P + D - length P)%nat with D by lia. cbn [app].
+    rewrite Hsk. rewrite Hfe. rewrite firstn_app. rewrite HP.
+    rewrite firstn_all2 by lia. replace (off - off)%nat with 0%nat by lia.
+    cbn [firstn]. rewrite app_nil_r.
+    rewrite <- !app_assoc. f_equal. f_equal. f_equal.
+    unfold R. rewrite skipn_skipn'. reflexivity.
+Qed.
+
+(* ------------------------------------------------------------------ *)
+(** * 8. merge_at is a sorted permutation *)
+
+Lemma merge_at_perm : forall gs A,
+  Permutation (merge_at gs A) (A ++ concat (map snd gs)).
+Proof.
+  induction gs as [|[off hs0] gs' IH]; intros A; cbn [merge_at map snd concat].
+  - rewrite app_nil_r. apply Permutation_refl.
+  - eapply perm_trans.
+    + apply Permutation_app; [apply IH|].
+      apply Permutation_app; [apply sort_hashes_perm|apply Permutation_refl].
+    + rewrite <- (firstn_skipn off A) at 3.
+      set (F := firstn off A). set (K := skipn off A). set (C := concat (map snd gs')).
+      rewrite <- !app_assoc. apply Permutation_app_head.
+      eapply perm_trans; [apply Permutation_app_comm|].
+      rewrite (app_assoc K hs0 C). apply Permutation_app_tail.
+      apply Permutation_app_comm.
+Qed.
+
+Definition group_ok (A : list hash) (g : nat * list hash) : Prop :=
+  (fst g <= length A)%nat /\ forall b, In b (snd g) -> is_pos A b (fst g).
+
+Lemma is_pos_firstn : forall A b o off,
+  (o < off)%nat -> (off <= length A)%nat -> is_pos A b o -> is_pos (firstn off A) b o.
+Proof.
+  intros A b o off Ho Hoff (H1 & H2 & H3).
+  unfold is_pos. rewrite firstn_length_le by exact Hoff.
+  split; [lia|]. split.
+  - intros i Hi. rewrite nth_firstn_lt by lia. apply H2. exact Hi.
+  - intros i Hi1 Hi2. rewrite nth_firstn_lt by lia. apply H3; lia.
+Qed.
+
+Lemma merge_at_sorted : forall gs (A : list hash),
+  SS A -> desc gs -> Forall (group_ok A) gs -> SS (merge_at gs A).
+Proof.
+  induction gs as [|[off hs0] gs' IH]; intros A HA Hd Hok; cbn [merge_at].
+  - exact HA.
+  - inversion Hd as [|g0 gs0 Hd' Hlt]; subst. inversion Hok as [|g1 gs1 Hg Hok']; subst.
+    destruct Hg as [Hoff Hpos]. cbn [fst snd] in *.
+    rewrite Forall_forall in Hlt, Hok'.
+    assert (Hok2 : Forall (group_ok (firstn off A)) gs').
+    { rewrite Forall_forall. intros g Hg. specialize (Hlt g Hg). cbn [fst] in Hlt.
+      destruct (Hok' g Hg) as [Q1 Q2]. split.
+      - rewrite firstn_length_le by exact Hoff. lia.
+      - intros b Hb. apply is_pos_firstn; [exact Hlt|exact Hoff|apply Q2; exact Hb]. }
+    apply SS_app_iff. split; [apply IH; [apply SS_firstn; exact HA|exact Hd'|exact Hok2]|].
+    split.
+    + apply SS_app_iff. split; [apply sort_hashes_SS|]. split; [apply SS_skipn; exact HA|].
+      intros x y Hx Hy.
+      apply (Permutation_in _ (sort_hashes_perm hs0)) in Hx.
+      destruct (In_skipn_nth _ 0 _ _ _ Hy) as (j & Hj1 & Hj2 & Ey). subst y.
+      destruct (Hpos x Hx) as (_ & _ & P3). apply P3; assumption.
+    + intros x y Hx Hy.
+      apply (Permutation_in _ (merge_at_perm gs' (firstn off A))) in Hx.
+      (* classify y *)
+      assert (Hy' : (In y hs0) \/ exists j, (off <= j)%nat /\ (j < length A)%nat /\ y = nth j A 0).
+      { apply in_app_or in Hy. destruct Hy as [Hy|Hy].
+        - left. apply (Permutation_in _ (sort_hashes_perm hs0)). exact Hy.
+        - right. apply (In_skipn_nth _ 0 _ _ _ Hy). }
+      apply in_app_or in Hx. destruct Hx as [Hx|Hx].
+      * destruct (In_firstn_nth _ 0 _ _ _ Hx) as (i & Hi1 & Hi2 & Ex). subst x.
+        destruct Hy' as [Hy'|(j & Hj1 & Hj2 & Ey)].
+        -- destruct (Hpos y Hy') as (_ & P2 & _). apply N.lt_le_incl. apply P2. exact Hi1.
+        -- subst y. apply SS_nth; [exact HA|lia|exact Hj2].
+      * apply in_concat in Hx. destruct Hx as (G & HG & HxG).
+        apply in_map_iff in HG. destruct HG as (g & Eg & Hg). subst G.
+        pose proof (Hlt g Hg) as Hlt'. cbn [fst] in Hlt'.
+        destruct (Hok' g Hg) as [Q1 Q2]. destruct (Q2 x HxG) as (_ & _ & X3).
+        destruct Hy' as [Hy'|(j & Hj1 & Hj2 & Ey)].
+        -- destruct (Hpos y Hy') as (_ & P2 & _).
+           pose proof (X3 (fst g) (Nat.le_refl _) ltac:(lia)) as B1.
+           pose proof (P2 (fst g) Hlt') as B2. hlia.
+        -- subst y. apply X3; [lia|exact Hj2].
+Qed.
+
+(* ------------------------------------------------------------------ *)
+(** * 9. grouping *)
+
+Definition groups_inv (A : list hash) (gs : list (nat * list hash)) : Prop :=
+  NoDup (map fst gs) /\ Forall (group_ok A) gs.
+
+Lemma group_add_fst : forall off b gs o,
+  In o (map fst (group_add off b gs)) <-> o = off \/ In o (map fst gs).
+Proof.
+  intros off b gs o. induction gs as [|[o' l] gs IH]; cbn [group_add map fst In].
+  - split; [intros [H|[]]; left; congruence|intros [H|[]]; left; congruence].
+  - destruct (Nat.eqb o' off) eqn:E; cbn [map fst In].
+    + apply Nat.eqb_eq in E. subst o'. split; [intros [H|H]; [left; congruence|right; right; exact H]|].
+      intros [H|[H|H]]; [left; congruence|left; exact H|right; exact H].
+    + rewrite IH. tauto.
+Qed.
+
+Lemma group_add_inv : forall A off b gs,
+  groups_inv A gs -> is_pos A b off -> groups_inv A (group_add off b gs).
+Proof.
+  intros A off b gs [Hnd Hok] Hpos. induction gs as [|[o l] gs IH]; cbn [group_add].
+  - split.
+    + cbn. constructor; [intros []|constructor].
+    + constructor; [|constructor]. split; cbn [fst snd].
+      * destruct Hpos as [H _]. exact H.
+      * intros b' [Hb|[]]. subst b'. exact Hpos.
+  - cbn [map fst] in Hnd. inversion Hnd as [|o0 os Hnin Hnd']; subst.
+    inversion Hok as [|g0 gs0 Hg Hok']; subst.
+    destruct (Nat.eqb o off) eqn:E.
+    + apply Nat.eqb_eq in E. subst o. split; [cbn [map fst]; exact Hnd|].
+      constructor; [|exact Hok']. destruct Hg as [G1 G2]. split; [exact G1|].
+      cbn [fst snd] in *. intros b' Hb'. apply in_app_or in Hb'.
+      destruct Hb' as [Hb'|[Hb'|[]]]; [apply G2; exact Hb'|subst b'; exact Hpos].
+    + apply Nat.eqb_neq in E. destruct (IH Hnd' Hok') as [I1 I2]. split.
+      * cbn [map fst]. constructor; [|exact I1].
+        rewrite group_add_fst. intros [H|H]; [congruence|contradiction].
+      * constructor; assumption.
+Qed.
+
+Lemma group_add_perm : forall off b gs,
+  Permutation (concat (map snd (group_add off b gs))) (b :: concat (map snd gs)).
+Proof.
+  intros off b gs. induction gs as [|[o l] gs IH]; cbn [group_add].
+  - cbn. apply Permutation_refl.
+  - destruct (Nat.eqb o off); cbn [map snd concat].
+    + rewrite <- app_assoc. cbn [app]. apply Permutation_sym. apply Permutation_middle.
+    + eapply perm_trans; [apply Permutation_app_head; exact IH|].
+      apply Permutation_sym. apply Permutation_middle.
+Qed.
+
+Lemma make_groups_spec : forall (tbl : list hash) bs gs0,
+  SS tbl -> Forall wf_hash bs -> groups_inv tbl gs0 ->
+  exists gs, make_groups (spec_fanout tbl) tbl bs gs0 = Some gs /\ groups_inv tbl gs /\
+             Permutation (concat (map snd gs)) (concat (map snd gs0) ++ bs).
+Proof.
+  intros tbl bs. induction bs as [|b bs IH]; intros gs0 Hss Hwf Hinv; cbn [make_groups].
+  - exists gs0. split; [reflexivity|]. split; [exact Hinv|]. rewrite app_nil_r. apply Permutation_refl.
+  - inversion Hwf as [|b0 bs0 Hb Hwf']; subst.
+    destruct (insert_index_spec tbl b Hss Hb) as (o & Eo & Hpos). rewrite Eo.
+    destruct (IH (group_add o b gs0) Hss Hwf' (group_add_inv tbl o b gs0 Hinv Hpos)) as (gs & E & I & HP).
+    exists gs. split; [exact E|]. split; [exact I|].
+    eapply perm_trans; [exact HP|].
+    eapply perm_trans; [apply Permutation_app_tail; apply group_add_perm|].
+    cbn [app]. apply Permutation_middle.
+Qed.
+
+Lemma ins_group_perm : forall g l, Permutation (ins_group g l) (g :: l).
+Proof.
+  intros g l. induction l as [|x l IH]; cbn.
+  - apply Permutation_refl.
+  - destruct (fst x <=? fst g)%nat.
+    + apply Permutation_refl.
+    + eapply perm_trans; [apply perm_skip; exact IH|apply perm_swap].
+Qed.
+
+Lemma sort_groups_perm : forall l, Permutation (sort_groups_desc l) l.
+Proof.
+  induction l as [|a l IH]; cbn.
+  - constructor.
+  - eapply perm_trans; [apply ins_group_perm|]. apply perm_skip. exact IH.
+Qed.
+
+Definition desc_le (gs : list (nat * list hash)) : Prop :=
+  StronglySorted (fun x y => (fst y <= fst x)%nat) gs.
+
+Lemma ins_group_desc : forall g l, desc_le l -> desc_le (ins_group g l).
+Proof.
+  intros g l H. induction H as [|x l Hss IH Hall]; cbn.
+  - constructor; constructor.
+  - destruct (fst x <=? fst g)%nat eqn:E.
+    + apply Nat.leb_le in E. constructor.
+      * constructor; assumption.
+      * constructor; [exact E|].
+        rewrite Forall_forall in *. intros y Hy. specialize (Hall y Hy). lia.
+    + apply Nat.leb_gt in E. constructor; [exact IH|].
+      rewrite Forall_forall in *. intros y Hy.
+      apply (Permutation_in _ (ins_group_perm g l)) in Hy.
+      destruct Hy as [Hy|Hy]; [subst y; lia|apply Hall; exact Hy].
+Qed.
+
+Lemma sort_groups_desc_le : forall l, desc_le (sort_groups_desc l).
+Proof.
+  induction l as [|a l IH]; cbn; [constructor|apply ins_group_desc; exact IH].
+Qed.
+
+Lemma desc_le_nodup : forall gs, desc_le gs -> NoDup (map fst gs) -> desc gs.
+Proof.
+  intros gs H. induction H as [|x l Hss IH Hall]; intros Hnd.
+  - constructor.
+  - cbn [map] in Hnd. inversion Hnd as [|o os Hnin Hnd']; subst.
+    constructor; [apply IH; exact Hnd'|].
+    rewrite Forall_forall in *. intros y Hy. specialize (Hall y Hy).
+    assert (Hne : fst y <> fst x) by (intros E; apply Hnin; rewrite <- E; apply in_map; exact Hy).
+    lia.
+Qed.
+
+Lemma concat_snd_perm : forall (l l' : list (nat * list hash)),
+  Permutation l l' -> Permutation (concat (map snd l)) (concat (map snd l')).
+Proof.
+  intros l l' HP. induction HP as [|x l l' HP IH|x y l|l l' l'' HP1 IH1 HP2 IH2]; cbn [map concat].
+  - constructor.
+  - apply Permutation_app_head. exact IH.
+  - rewrite !app_assoc. apply Permutation_app_tail. apply Permutation_app_comm.
+  - eapply perm_trans; eassumption.
+Qed.
+
+(* ------------------------------------------------------------------ *)
+(** * 10. fan-out update *)
+
+Lemma bump_from_map_seq : forall n a k (f : nat -> nat),
+  bump_from k (map f (seq a n))
+  = map (fun i => if (a + k <=? i)%nat then S (f i) else f i) (seq a n).
+Proof.
+  induction n as [|n IH]; intros a k f; cbn [seq map bump_from].
+  - reflexivity.
+  - destruct k as [|k].
+    + replace (a + 0 <=? a)%nat with true by (symmetry; apply Nat.leb_le; lia).
+      f_equal. rewrite IH. apply map_ext_in. intros i Hi. apply in_seq in Hi.
+      replace (S a + 0 <=? i)%nat with true by (symmetry; apply Nat.leb_le; lia).
+      replace (a + 0 <=? i)%nat with true by (symmetry; apply Nat.leb_le; lia).
+      reflexivity.
+    + replace (a + S k <=? a)%nat with false by (symmetry; apply Nat.leb_gt; lia).
+      f_equal. rewrite IH. apply map_ext. intros i.
+      replace (S a + k)%nat with (a + S k)%nat by lia. reflexivity.
+Qed.
+
+Lemma bump_from_spec : forall b l, bump_from (fb b) (spec_fanout l) = spec_fanout (b :: l).
+Proof.
+  intros b l. unfold spec_fanout. rewrite bump_from_map_seq. apply map_ext. intros k.
+  cbn [filter plus]. destruct (fb b <=? k)%nat; reflexivity.
+Qed.
+
+Lemma add_to_fanout_spec : forall bs t t',
+  Permutation t' (t ++ bs) -> add_to_fanout (spec_fanout t) bs = spec_fanout t'.
+Proof.
+  induction bs as [|b bs IH]; intros t t' HP; unfold add_to_fanout; cbn [fold_left].
+  - rewrite app_nil_r in HP. apply spec_fanout_perm. apply Permutation_sym. exact HP.
+  - rewrite bump_from_spec. apply IH.
+    eapply perm_trans; [exact HP|]. apply Permutation_sym. apply Permutation_middle.
+Qed.
+
+(* ------------------------------------------------------------------ *)
+(** * 11. flush *)
+
+Lemma Forall_wf_perm : forall l l' : list hash,
+  Permutation l l' -> Forall wf_hash l -> Forall wf_hash l'.
+Proof.
+  intros l l' HP H. rewrite Forall_forall in *. intros x Hx.
+  apply H. apply (Permutation_in _ (Permutation_sym HP)). exact Hx.
+Qed.
+
+Lemma add_to_hash_table_spec : forall s, HS_inv s ->
+  exists t, add_to_hash_table s = Some t /\ SS t /\ Permutation t (table s ++ batch s).
+Proof.
+  intros s (Hlen & Hsorted & Hfan & Hwt & Hwb).
+  apply Sorted_SS in Hsorted.
+  unfold add_to_hash_table. rewrite Hfan.
+  assert (Hinv0 : groups_inv (table s) []).
+  { split; [constructor|constructor]. }
+  destruct (make_groups_spec (table s) (batch s) [] Hsorted Hwb Hinv0) as (gs & Eg & [Hnd Hok] & HP).
+  rewrite Eg. cbn [map concat app] in HP.
+  set (gs' := sort_groups_desc gs).
+  pose proof (sort_groups_perm gs) as HPg. fold gs' in HPg.
+  assert (Hd : desc gs').
+  { apply desc_le_nodup; [apply sort_groups_desc_le|].
+    eapply Permutation_NoDup; [|exact Hnd].
+    apply Permutation_map. apply Permutation_sym. exact HPg. }
+  assert (Hok' : Forall (group_ok (table s)) gs').
+  { rewrite Forall_forall in *. intros g Hg. apply Hok. apply (Permutation_in _ HPg). exact Hg. }
+  assert (HPc : Permutation (concat (map snd gs')) (batch s)).
+  { eapply perm_trans; [apply concat_snd_perm; exact HPg|exact HP]. }
+  assert (Htot : total gs' = length (batch s)).
+  { unfold total. apply Permutation_length. exact HPc. }
+  assert (Hle : Forall (fun g => (fst g <= size s)%nat) gs').
+  { rewrite <- Hlen. eapply Forall_impl; [|exact Hok']. intros g [Hg _]. exact Hg. }
+  rewrite <- Htot.
+  rewrite (apply_groups_spec gs' (size s) (table s) ltac:(lia) Hd Hle).
+  rewrite <- Hlen. rewrite firstn_all. rewrite skipn_all2 by lia. rewrite app_nil_r.
+  eexists. split; [reflexivity|]. split.
+  - apply merge_at_sorted; assumption.
+  - eapply perm_trans; [apply merge_at_perm|]. apply Permutation_app_head. exact HPc.
+Qed.
+
+Lemma flush_spec : forall s, HS_inv s ->
+  exists s', flush s = Some s' /\ HS_inv s' /\
+     Permutation (table s') (table s ++ batch s) /\ batch s' = [] /\
+     size s' = (size s + length (batch s))%nat /\ bsz s' = bsz s.
+Proof.
+  intros s Hinv.
+  destruct (add_to_hash_table_spec s Hinv) as (t & Et & Hss & HP).
+  destruct Hinv as (Hlen & Hsorted & Hfan & Hwt & Hwb).
+  unfold flush. rewrite Et. eexists. split; [reflexivity|].
+  unfold HS_inv. cbn [table batch size bsz fanout]. repeat split.
+  - pose proof (Permutation_length HP) as L. rewrite app_length in L. hlia.
+  - apply SS_Sorted. exact Hss.
+  - rewrite Hfan. apply add_to_fanout_spec. exact HP.
+  - apply (Forall_wf_perm _ _ (Permutation_sym HP)). apply Forall_app. split; assumption.
+  - constructor.
+  - exact HP.
+Qed.
+
+Lemma flush_merge : forall s,
+  HS_inv s -> exists s', flush s = Some s' /\ HS_inv s' /\
+     Permutation (table s') (table s ++ batch s) /\ batch s' = [] /\
+     size s' = (size s + length (batch s))%nat.
+Proof.
+  intros s Hinv. destruct (flush_spec s Hinv) as (s' & H1 & H2 & H3 & H4 & H5 & _).
+  exists s'. split; [exact H1|]. split; [exact H2|]. split; [exact H3|]. split; [exact H4|exact H5].
+Qed.
+
+(* ------------------------------------------------------------------ *)
+(** * 12. refinement *)
+
+Definition R (s : hs) (sp : spec) : Prop :=
+  HS_inv s /\ Permutation (table s) (fl sp) /\ batch s = pend sp /\ bsz s = sb sp.
+
+Lemma zeros_fanout : zeros256 = spec_fanout [].
+Proof. vm_compute. reflexivity. Qed.
+
+Lemma R_init : forall b, R (hs_new b) (spec_new b).
+Proof.
+  intros b. unfold R, hs_new, spec_new, HS_inv. cbn [table batch size bsz fanout fl pend sb].
+  repeat split; first [apply zeros_fanout | constructor].
+Qed.
+
+Lemma has_spec : forall s h, HS_inv s -> wf_hash h -> has s h = Some (mem h (table s)).
+Proof.
+  intros s h (Hlen & Hsorted & Hfan & Hwt & Hwb) Hwf.
+  apply Sorted_SS in Hsorted.
+  destruct (index_of_spec (table s) h Hsorted Hwf) as (r & Er & Hr).
+  unfold has. rewrite Hfan, Er. rewrite <- Hr. destruct r; reflexivity.
+Qed.
+
+Lemma cnt_255 : forall l : list hash, Forall wf_hash l -> cnt l 255 = length l.
+Proof.
+  intros l H. unfold cnt. induction H as [|a l Ha Hl IH]; cbn [filter length].
+  - reflexivity.
+  - pose proof (fb_wf a Ha) as Hf.
+    replace (fb a <=? 255)%nat with true by (symmetry; apply Nat.leb_le; lia).
+    cbn [length]. f_equal. exact IH.
+Qed.
+
+Lemma step_refines : forall s sp o, R s sp -> wf_op o ->
+  exists s' sp' r, step s o = (s', r) /\ spec_step sp o = (sp', r) /\ R s' sp'.
+Proof.
+  intros s sp o (Hinv & HP & Hb & Hz) Hwf.
+  pose proof Hinv as (Hlen & Hsorted & Hfan & Hwt & Hwb).
+  destruct o as [h|  |h|b| | ]; cbn [step spec_step wf_op] in *.
+  - (* OAdd *)
+    destruct (index_of_spec (table s) h (Sorted_SS _ Hsorted) Hwf) as (r & Er & Hr).
+    rewrite <- Hfan in Er.
+    unfold add. rewrite Er. rewrite <- (mem_perm h _ _ HP). rewrite <- Hr.
+    destruct r as [p|].
+    + exists s, sp, RUnit. repeat split; assumption.
+    + cbn [batch bsz]. rewrite <- Hb, <- Hz.
+      set (s1 := mk_hs (fanout s) (table s) (size s) (batch s ++ [h]) (bsz s)).
+      assert (Hinv1 : HS_inv s1).
+      { unfold HS_inv, s1. cbn [table batch size fanout]. repeat split; try assumption.
+        apply Forall_app. split; [exact Hwb|]. constructor; [exact Hwf|constructor]. }
+      cbn [pend].
+      destruct (bsz s <=? length (batch s ++ [h]))%nat.
+      * destruct (flush_spec s1 Hinv1) as (s2 & E2 & Hinv2 & HP2 & Hb2 & Hs2 & Hz2).
+        rewrite E2. eexists s2, _, RUnit. split; [reflexivity|]. split; [reflexivity|].
+        unfold R, spec_flush. cbn [fl pend sb]. repeat split.
+        -- apply Hinv2.
+        -- apply Hinv2.
+        -- apply Hinv2.
+        -- apply Hinv2.
+        -- apply Hinv2.
+        -- eapply perm_trans; [exact HP2|]. unfold s1. cbn [table batch].
+           apply Permutation_app_tail. exact HP.
+        -- exact Hb2.
+        -- rewrite Hz2. reflexivity.
+      * eexists s1, _, RUnit. split; [reflexivity|]. split; [reflexivity|].
+        unfold R. cbn [fl pend sb]. unfold s1 at 2 3 4. cbn [table batch bsz].
+        repeat split; try assumption; apply Hinv1.
+  - (* OFlush *)
+    destruct (flush_spec s Hinv) as (s2 & E2 & Hinv2 & HP2 & Hb2 & Hs2 & Hz2).
+    rewrite E2. eexists s2, _, RUnit. split; [reflexivity|]. split; [reflexivity|].
+    unfold R, spec_flush. cbn [fl pend sb]. repeat split; try apply Hinv2.
+    + eapply perm_trans; [exact HP2|]. rewrite Hb. apply Permutation_app_tail. exact HP.
+    + exact Hb2.
+    + congruence.
+  - (* OHas *)
+    rewrite (has_spec s h Hinv Hwf). rewrite (mem_perm h _ _ HP).
+    exists s, sp, (RBool (mem h (fl sp))). repeat split; assumption.
+  - (* OReopen *)
+    eexists _, _, RUnit. split; [reflexivity|]. split; [reflexivity|].
+    unfold R, reopen, HS_inv. cbn [table batch size bsz fanout fl pend sb].
+    repeat split; try assumption; try constructor.
+    rewrite Hfan. rewrite spec_fanout_nth by lia. symmetry. apply cnt_255. exact Hwt.
+  - (* OLen *)
+    exists s, sp, (RNat (size s)). split; [reflexivity|]. split.
+    + rewrite <- Hlen. rewrite (Permutation_length HP). reflexivity.
+    + repeat split; assumption.
+  - (* ODump *)
+    exists s, sp, (RDump (fanout s) (firstn (size s) (table s))). split; [reflexivity|]. split.
+    + rewrite <- Hlen, firstn_all. rewrite Hfan. rewrite (spec_fanout_perm _ _ HP).
+      f_equal. f_equal. symmetry. apply SS_perm_unique.
+      * apply Sorted_SS. exact Hsorted.
+      * apply sort_hashes_SS.
+      * eapply perm_trans; [exact HP|]. apply Permutation_sym. apply sort_hashes_perm.
+    + repeat split; assumption.
+Qed.
+
+Lemma run_refines : forall ops s sp, R s sp -> Forall wf_op ops ->
+  run_ops s ops = spec_run sp ops.
+Proof.
+  induction ops as [|o ops IH]; intros s sp HR Hwf; cbn [run_ops spec_run].
+  - reflexivity.
+  - inversion Hwf as [|o0 ops0 Ho Hops]; subst.
+    destruct (step_refines s sp o HR Ho) as (s' & sp' & r & E1 & E2 & HR').
+    rewrite E1, E2. f_equal. apply IH; assumption.
+Qed.
+
+Lemma refines : forall (b : nat) (ops : list op),
+  Forall wf_op ops -> run_ops (hs_new b) ops = spec_run (spec_new b) ops.
+Proof.
+  intros b ops Hwf. apply run_refines; [apply R_init|exact Hwf].
+Qed.
+
+(* ------------------------------------------------------------------ *)
+(** * 13. membership after a final flush *)
+
+Fixpoint spec_exec (s : spec) (ops : list op) : spec :=
+  match ops with
+  | [] => s
+  | o :: ops' => spec_exec (fst (spec_step s o)) ops'
+  end.
+
+Lemma spec_run_app : forall l1 l2 s,
+  spec_run s (l1 ++ l2) = spec_run s l1 ++ spec_run (spec_exec s l1) l2.
+Proof.
+  induction l1 as [|o l1 IH]; intros l2 s; cbn [app spec_run spec_exec].
+  - reflexivity.
+  - destruct (spec_step s o) as [s' r]. cbn [fst app]. f_equal. apply IH.
+Qed.
+
+Lemma spec_add_content : forall s a x,
+  In x (fl (fst (spec_step s (OAdd a))) ++ pend (fst (spec_step s (OAdd a))))
+  <-> In x (fl s ++ pend s) \/ x = a.
+Proof.
+  intros s a x. cbn [spec_step].
+  destruct (mem a (fl s)) eqn:Em; cbn [fst].
+  - apply mem_In in Em. split; [intros H; left; exact H|].
+    intros [H|H]; [exact H|]. subst x. apply in_or_app. left. exact Em.
+  - cbn [pend sb].
+    destruct (sb s <=? length (pend s ++ [a]))%nat; cbn [fst]; unfold spec_flush; cbn [fl pend].
+    + rewrite app_nil_r. rewrite !in_app_iff. cbn [In]. intuition congruence.
+    + rewrite !in_app_iff. cbn [In]. intuition congruence.
+Qed.
+
+Lemma spec_adds_content : forall adds s x,
+  In x (fl (spec_exec s (map OAdd adds)) ++ pend (spec_exec s (map OAdd adds)))
+  <-> In x (fl s ++ pend s) \/ In x adds.
+Proof.
+  induction adds as [|a adds IH]; intros s x; cbn [map spec_exec].
+  - cbn [In]. tauto.
+  - rewrite IH. rewrite spec_add_content. cbn [In]. intuition congruence.
+Qed.
+
+Lemma last_app2 : forall (A : Type) (l : list A) (a b d : A), last (l ++ [a; b]) d = b.
+Proof.
+  intros A l a b d. induction l as [|x l IH].
+  - reflexivity.
+  - cbn [app]. destruct (l ++ [a; b]) eqn:E.
+    + destruct l; discriminate.
+    + cbn [last]. cbn [last] in IH. exact IH.
+Qed.
+
+Lemma member_after_flush : forall (b : nat) (adds : list hash) (h : hash),
+  Forall wf_hash adds -> wf_hash h ->
+  last (run_ops (hs_new b) (map OAdd adds ++ [OFlush; OHas h])) RErr
+  = RBool (if in_dec N.eq_dec h adds then true else false).
+Proof.
+  intros b adds h Hadds Hh.
+  rewrite refines.
+  - rewrite spec_run_app. cbn [spec_run spec_step]. rewrite last_app2.
+    f_equal. unfold spec_flush. cbn [fl].
+    set (s1 := spec_exec (spec_new b) (map OAdd adds)).
+    destruct (in_dec N.eq_dec h adds) as [Hin|Hnin].
+    + apply mem_In. apply spec_adds_content. right. exact Hin.
+    + destruct (mem h (fl s1 ++ pend s1)) eqn:Em; [|reflexivity].
+      exfalso. apply mem_In in Em. apply spec_adds_content in Em.
+      destruct Em as [Em|Em]; [|contradiction].
+      cbn in Em. destruct (Nat.eqb b 0); cbn in Em; contradiction.
+  - apply Forall_app. split.
+    + rewrite Forall_forall in *. intros o Ho. apply in_map_iff in Ho.
+      destruct Ho as (a & Ea & Ha). subst o. cbn. apply Hadds. exact Ha.
+    + constructor; [exact I|]. constructor; [exact Hh|constructor].
+Qed.
